@@ -40,6 +40,9 @@ Fixpoint write_loop (fuel : nat) (b : bytes) (w : writer) : option (option werr)
 (* what is handed to the write loop: Marshal's bytes, with the newline appended unless NoEncoderNewline *)
 Definition payload (body : bytes) (newline : bool) : bytes := if newline then body ++ [10%N] else body.
 
+(* SetIndent path: json.Indent's output, with the newline appended unless NoEncoderNewline *)
+Definition indent_payload (ind : bytes) (newline : bool) : bytes := if newline then ind ++ [10%N] else ind.
+
 Inductive eres := ENil | EErr (e : werr) | EMarshalErr | EFuel.
 
 (* Encode: out = result of EncodeInto (None = encoding error);
@@ -52,7 +55,7 @@ Definition Encode (out : option bytes) (indent : option bytes) (newline : bool) 
     match indent with
     | Some ind =>
       (* buf.WriteByte('\n'); io.Copy(enc.w, buf) = buf.WriteTo(w): one Write, short write = io.ErrShortWrite *)
-      let p := if newline then ind ++ [10%N] else ind in
+      let p := indent_payload ind newline in
       match p with
       | [] => (ENil, w)
       | _ =>
